@@ -48,6 +48,7 @@ type LogEntry struct {
 	BufObj *Obj
 	NowsBefore int
 	Rets   []Value
+	ArgT   []types.Type
 }
 
 type Snapshot struct {
